@@ -355,9 +355,24 @@ def resolveImports(sheet, target=None):
         elif rule.type == rule.IMPORT_RULE:
             _resolve_import(rule, target)
         else:
-            target.add(rule)
+            _add_rule(target, rule)
 
     return target
+
+
+def _add_rule(target, rule):
+    """
+    Add `rule` to `target`; a kept @import rule whose sheet could not be
+    read is not requested again (by another fetcher) for being moved.
+    """
+    if rule.type == rule.IMPORT_RULE and not rule.hrefFound:
+        rule.hrefFound = True
+        try:
+            target.add(rule)
+        finally:
+            rule.hrefFound = False
+    else:
+        target.add(rule)
 
 
 class MediaCombineDisallowed(Exception):
@@ -388,7 +403,7 @@ def _resolve_import(rule, target):
             'Cannot get referenced stylesheet %r, keeping rule' % rule.href,
             neverraise=True,
         )
-        target.add(rule)
+        _add_rule(target, rule)
         return
 
     # add all rules of @import to current sheet
@@ -407,7 +422,7 @@ def _resolve_import(rule, target):
             '@import: Cannot resolve target, keeping rule: %s' % e,
             neverraise=True,
         )
-        target.add(rule)
+        _add_rule(target, rule)
         return
 
     # adjust relative URI references
@@ -426,12 +441,12 @@ def _resolve_import(rule, target):
             f'comments or stylerules; found {exc.failed[0]!r}, keeping {rule.cssText}',
             neverraise=True,
         )
-        target.add(rule)
+        _add_rule(target, rule)
         return
 
     imp_target = media_proxy or target
     for r in importedSheet:
-        imp_target.add(r)
+        _add_rule(imp_target, r)
 
     if media_proxy:
         target.add(media_proxy)
